@@ -247,26 +247,61 @@ def main():
     sys.exit(rc)
 
 
+def find_scenario_seed(w):
+    """The seed of the scenario a witness belongs to, if the check recorded one."""
+    if isinstance(w, dict):
+        for k in ("scenario", "wire_scenario"):
+            if isinstance(w.get(k), dict) and isinstance(w[k].get("seed"), int):
+                return w[k]["seed"]
+        for v in w.values():
+            r = find_scenario_seed(v)
+            if r is not None:
+                return r
+    return None
+
+
 def replay(cid, path):
+    """Re-run what a replay file describes and say how often the same signature recurs.
+
+    Simulation scenarios: the recorded scenario seed is run 20 times (the code under test has
+    unseedable internal randomness: thread_rng, HashMap order, select! — a schedule cannot be
+    reproduced bit for bit, the scenario can). Everything else: the recorded tier/seed/shard layout
+    is deterministic on the harness side and is simply run again."""
     d = json.load(open(path))
     sig = d["signature"]
-    # Re-run the recorded tier/seed/shard layout, restricted to nothing: internal randomness of the
-    # code under test is not seedable, so replay = same scenario generator state, N attempts.
     outdir = os.path.join(OUT, "%s-replay" % cid)
-    hits = 0
-    attempts = 3
-    for k in range(attempts):
-        shutil.rmtree(outdir, ignore_errors=True)
-        os.makedirs(outdir)
+    seeds = [x for x in (find_scenario_seed(w.get("witness")) for w in d.get("witnesses", [])) if x is not None]
+    for w in d.get("witnesses", [])[:1]:
+        print("recorded witness: %s" % w.get("what", "")[:400])
+        tr = (w.get("witness") or {}).get("trace") or (w.get("witness") or {}).get("trace_tail")
+        for line in (tr or [])[-12:]:
+            print("    " + str(line)[:220])
+    hits, attempts = 0, 0
+    if seeds and cid not in ("C19",):
+        for sd in seeds[:2]:
+            shutil.rmtree(outdir, ignore_errors=True)
+            os.makedirs(outdir)
+            cmd = [VH, "run", cid, "--tier", d["tier"], "--seed", str(d["seed"]), "--shard", "0/1", "--out", outdir, "--scenario-seed", str(sd), "--repeat", "20"]
+            subprocess.run(cmd, stdout=subprocess.DEVNULL, stderr=subprocess.DEVNULL, cwd=outdir, timeout=3600)
+            m = merge(outdir, 1)
+            attempts += 20
+            hits += m["counters"].get("violations:" + sig, 0)
+            print("scenario seed %d: signature %s in %d of 20 attempts" % (sd, sig, m["counters"].get("violations:" + sig, 0)))
+    else:
         jobs = d.get("jobs", 16)
-        run_shards(cid, d["tier"], d["seed"], jobs, d.get("scale", 1.0), "", outdir, 7200)
-        m = merge(outdir, jobs)
-        if any(v["signature"] == sig for v in m["violations"]):
-            hits += 1
-    print("replay of %s: signature %s reproduced in %d/%d attempts" % (path, sig, hits, attempts))
+        for k in range(2):
+            shutil.rmtree(outdir, ignore_errors=True)
+            os.makedirs(outdir)
+            run_shards(cid, d["tier"], d["seed"], jobs, d.get("scale", 1.0), "", outdir, 7200)
+            m = merge(outdir, jobs)
+            attempts += 1
+            if any(v["signature"] == sig for v in m["violations"]):
+                hits += 1
+        print("full re-run of tier=%s seed=%d: signature %s in %d of %d runs" % (d["tier"], d["seed"], sig, hits, attempts))
     if hits:
         print("VIOLATION property=%s replay=%s" % (cid, path))
         return 1
+    print("not reproduced on the current tree")
     return 0
 
 
